@@ -420,3 +420,15 @@ def _validator_refactor(filename, src):
 
 S('REF_S_stream_guard_into_validator', ['C06', 'C20', 'C03', 'C16'], '*', pkg_fn=_validator_refactor)
 S('REF_S_elif_chain', ['C07', 'C06'], 'bitstream.py', "        if pos < 0:\n            raise ValueError(\"Bit position cannot be negative.\")\n        if pos > len(self):\n            raise ValueError(\"Cannot seek past the end of the data.\")", "        if pos < 0:\n            raise ValueError(\"Bit position cannot be negative.\")\n        elif pos > len(self):\n            raise ValueError(\"Cannot seek past the end of the data.\")")
+
+def _claim_helper(filename, src):
+    claim = "        if self._bitstore.immutable:\n            self._bitstore = self._bitstore._copy()\n            self._bitstore.immutable = False\n"
+    if filename == 'bitarray_.py':
+        return src.replace(claim + "\n    def copy(", "        self._claim_store()\n\n    def _claim_store(self) -> None:\n" + claim + "\n    def copy(")
+    if filename == 'bitstream.py':
+        return src.replace(claim + "\n    def __copy__(self) -> BitStream:", "        self._claim_store()\n\n    def __copy__(self) -> BitStream:")
+    return None
+
+
+S('REF_S_claim_in_helper', ['C04', 'C16', 'C08', 'C01', 'C09'], '*', pkg_fn=_claim_helper)
+S('REF_S_claim_inline_copy', ['C04'], 'bitarray_.py', "        if self._bitstore.immutable:\n            self._bitstore = self._bitstore._copy()\n            self._bitstore.immutable = False\n\n    def copy(", "        if self._bitstore.immutable:\n            self._bitstore = self._bitstore.getslice_msb0(None, None)\n            self._bitstore.immutable = False\n\n    def copy(")
